@@ -115,7 +115,9 @@ def _gen_opts(r: Rng, ds: dsdlgen.DsdlSet, lang: typing.Optional[str], fixed: ty
             o["pp_trim"] = True
         if r.chance(1, 6):
             # an external post-processor program: listing and dry-run modes must not run it (it edits files)
-            o["pp_prog"] = r.choice([True, "rename"])
+            o["pp_prog"] = r.choice([True, "rename", "crlf"])
+        if r.chance(1, 6) and lang in ("c", "cpp"):
+            o["extra_support"] = r.choice([True, "readonly"])  # a plain (copied) header in the language's support package
         if r.chance(1, 6):
             o["file_mode"] = r.choice([0o444, 0o644, 0o600, 0o400])
     o.update(fixed)
